@@ -117,7 +117,8 @@ func (r *verifReader20) Close() error { return nil }
 		}
 		build.WriteString("\t\tvar body io.ReadCloser = http.NoBody\n\t\tif hasBody {\n\t\t\tbody = io.NopCloser(strings.NewReader(bodyText))\n\t\t}\n")
 		fmt.Fprintf(&build, "\t\tw := newVerifRec()\n\t\tu := &url.URL{Path: %q}\n\t\tvrt.SetQuery(u, query)\n\t\tr := &http.Request{Method: %q, URL: u, Header: hdr, Body: body}\n\t\tapi.ServeHTTP(w, r)\n", concreteOpPath(u, op), op.Method)
-		sb.WriteString("\tvrt.Shared(api)\n\tvrt.Enter()\n\tvrt.Concurrent(func() {\n" + build.String() + "\t})\n}\n\n")
+		// raw requests: objects taken from a sync.Pool may carry what another request left in them
+		sb.WriteString("\tvrt.PoolLeftovers(true)\n\tvrt.Shared(api)\n\tvrt.Enter()\n\tvrt.Concurrent(func() {\n" + build.String() + "\t})\n}\n\n")
 
 		// ---------------------------------------------------------- (2) responses
 		if h.WriteM == "" {
@@ -235,6 +236,17 @@ func (r *verifReader20) Close() error { return nil }
 		}
 		emitTransport(&sb, u)
 		fmt.Fprintf(&sb, "\tvrt.Shared(api, client)\n\tvrt.Enter()\n\tvrt.Concurrent(func() {\n\t\tclient.%s(context.Background(), sent)\n\t})\n}\n\n", h.Base)
+	}
+	// ---------------------------------------------------------- (4) CORS preflight
+	if g.HasCORS {
+		n++
+		fmt.Fprintf(&sb, "// preflight requests (and any other request line) with the CORS hook installed\nfunc VerifC20Preflight() {\n\tpath := vrt.String(\"path\", %d)\n\tmethod := vrt.String(\"method\", 8)\n", pathBound(s, 16))
+		emitAPISetup(&sb, u, func(i int, gh *GenHandler) string { return "" })
+		for _, f := range u.Gen.SecFields {
+			fmt.Fprintf(&sb, "\tapi.%s = func(r *http.Request, token string) (*http.Request, bool) { return r, true }\n", f)
+		}
+		sb.WriteString("\tapi.CORSHandler = func(ms, hs []string) http.Handler {\n\t\treturn http.HandlerFunc(func(w http.ResponseWriter, r *http.Request) { w.WriteHeader(204) })\n\t}\n")
+		sb.WriteString("\tvrt.Shared(api)\n\tvrt.Enter()\n\tvrt.Concurrent(func() {\n\t\tw := newVerifRec()\n\t\tu := &url.URL{Path: path}\n\t\tr := &http.Request{Method: method, URL: u, Header: http.Header{}, Body: http.NoBody}\n\t\tapi.ServeHTTP(w, r)\n\t})\n}\n\n")
 	}
 	if n == 0 {
 		return 0, nil
